@@ -185,6 +185,9 @@ def reaching_value(func: ast.AST, use: ast.AST, name: str):
                         if isinstance(inner, ast.Assign) and len(inner.targets) == 1 and isinstance(inner.targets[0], ast.Name) \
                                 and inner.targets[0].id == name:
                             return inner, inner.value
+                        if isinstance(inner, ast.AnnAssign) and isinstance(inner.target, ast.Name) and inner.target.id == name \
+                                and inner.value is not None:
+                            return inner, inner.value
                         if _defines(inner, name):
                             return None
             if _defines(st, name):
